@@ -259,7 +259,7 @@ struct ArgsT final {
 	using ReactOrder	= TReactOrder;
 
 #if HFSM2_SERIALIZATION_AVAILABLE()
-	static constexpr Short SERIAL_BITS			= NSerialBits;
+	static constexpr Long  SERIAL_BITS			= NSerialBits;
 #endif
 
 	static constexpr Short SUBSTITUTION_LIMIT	= Config::SUBSTITUTION_LIMIT;
